@@ -7,7 +7,7 @@ From V.c13 Require Import C13Spec C13Model C13Bits C13EscProofs C13MarkProofs
   C13WriterProofs C13ReaderProofs C13RoundTrip C13PlainProofs
   C13ModelExt C13TrailProofs C13FswProofs C13FswRoundTrip C13ByteWriterProofs
   C13WideProofs C13StickyProofs C13FailProofs C13ExactProofs C13SpillProofs C13SignedProofs C13UeLoopProofs C13ReadAnyProofs C13ReadAnyPlainProofs
-  C13ModelTail C13TailProofs2.
+  C13ModelTail C13TailProofs2 C13UeAnyProofs.
 
 (* ---- emulation prevention, byte level, every byte string ---- *)
 Theorem C13_unescape_escape : forall l : list N, unescape (escape l) = l.
@@ -599,4 +599,34 @@ Example ex_write_string :
   let ops := [FStr [97; 98] true; F1 (FU 2 258); FStr [99; 100; 101] true; FStr [102] false] in
   fbytes (run_fsw2 16 ops) = [97; 98; 0; 1; 2; 99; 100; 101; 0; 102] /\ ferr (run_fsw2 16 ops) = false /\
   fbytes (run_fsw2 8 ops) = [97; 98; 0; 1; 2; 102] /\ ferr (run_fsw2 8 ops) = true.
+Proof. vm_compute. repeat split. Qed.
+
+(* ---- ReadExpGolomb / ReadSignedGolomb on a code with ANY number of leading zero bits (malformed streams included) ---- *)
+(* (1) q zero bits, a one and at least q more bits, at any alignment, q unbounded: ReadExpGolomb returns
+         ((2^q - 1) mod 2^64 + suffix mod 2^(64 - k)) mod 2^64,   k = bits left pending after the suffix (0..7),
+       no error, having consumed exactly the 2q + 1 bits of the code (for q <= 57 no modulus bites: C13_read_golomb57);
+   (2) the first term is 2^q - 1 below 64 and all ones from 64 on (Go's `1 << q` is 0 there);
+   (3) ReadSignedGolomb is the code's mapping of that value, its `+ 1` wrapping at 2^64 *)
+Theorem C13_read_golomb_any :
+  (forall s q rest,
+     RGood s -> rbits s = repeat false q ++ true :: rest -> (q <= length rest)%nat ->
+     exists s', read_ue s = (u64 (u64 (2 ^ N.of_nat q - 1) + val_of (firstn q rest) mod 2 ^ (64 - rn s')), s') /\
+                rbits s' = skipn q rest /\ RGood s' /\ rdata s' = rdata s) /\
+  (forall q, (q < 64 -> u64 (2 ^ q - 1) = 2 ^ q - 1) /\ (64 <= q -> u64 (2 ^ q - 1) = 18446744073709551615)) /\
+  (forall s q rest,
+     RGood s -> rbits s = repeat false q ++ true :: rest -> (q <= length rest)%nat ->
+     exists s', let u := u64 (u64 (2 ^ N.of_nat q - 1) + val_of (firstn q rest) mod 2 ^ (64 - rn s')) in
+                read_se64 s = (if u mod 2 =? 1 then Z.of_N (u64 (u + 1) / 2) else (- Z.of_N (u / 2))%Z, s') /\
+                rbits s' = skipn q rest /\ RGood s' /\ rdata s' = rdata s).
+Proof. exact (conj read_ue_any (conj ue_base_cases read_se64_any)). Qed.
+Print Assumptions C13_read_golomb_any.
+
+(* 60 zero bits, a one, 60 one bits: 7 bits stay pending, so the suffix loses its top 3 bits (2^60 - 1 + 2^57 - 1, the
+   standard's codeNum would be 2^61 - 2); 64 zero bits, a one, 64 zero bits: all ones, signed 0 *)
+Example ex_golomb_any :
+  let s := rinit ([0; 0; 0; 0; 0; 0; 0; 15] ++ repeat 255 8) in
+  rbits s = repeat false 60 ++ true :: repeat true 67 /\
+  fst (read_ue s) = 1297036692682702846 /\ rn (snd (read_ue s)) = 7 /\ rerr (snd (read_ue s)) = false /\
+  fst (read_ue (rinit (repeat 0 8 ++ [128] ++ repeat 0 8))) = 18446744073709551615 /\
+  fst (read_se64 (rinit (repeat 0 8 ++ [128] ++ repeat 0 8))) = 0%Z.
 Proof. vm_compute. repeat split. Qed.
